@@ -84,7 +84,7 @@ def grid_cases(rng):
         for limit in U.LIMITS:
             for idx in U.INDEXES:
                 for size in U.SIZES:
-                    f = U.spell(rng.choice('spt'), *rng.choice([('a', 'n', 'e'), ('', 'n', ''), ('a/b', '', 'txt'), ('x y', 'file', '')]))
+                    f = U.spell(rng.choice('sptz'), *rng.choice([('a', 'n', 'e'), ('', 'n', ''), ('a/b', '', 'txt'), ('x y', 'file', '')]))
                     g = U.spell('t', 'a', 'g', 'e')
                     size2 = rng.choice([s for s in U.SIZES if s < 70000])
                     yield {'single': single, 'ops': [
@@ -111,7 +111,7 @@ def collision_cases(rng):
         for limit in U.LIMITS:
             for idx in U.INDEXES:
                 for size in (12, 17, 1025, 65536 + 12):
-                    f = U.spell(rng.choice('spt'), *rng.choice([('a', 'n', 'e'), ('', 'n', ''), ('a/b', '', 'txt')]))
+                    f = U.spell(rng.choice('sptz'), *rng.choice([('a', 'n', 'e'), ('', 'n', ''), ('a/b', '', 'txt')]))
                     pad = U.gen_bytes(rng.randrange(1000), size - 12)
                     cut = rng.choice([0, len(pad) // 2, len(pad)]) if size <= 2000 else rng.choice([0, 65530, len(pad)])
                     a = pad[:cut] + COLL_A + pad[cut:]
@@ -143,7 +143,7 @@ def session_cases(rng):
                 for body in SESSION_BODIES:
                     for end in SESSION_ENDS:
                         limit = rng.choice(U.LIMITS); idx = rng.choice(U.INDEXES)
-                        sp = lambda t: U.spell(rng.choice('spt'), *t)
+                        sp = lambda t: U.spell(rng.choice('sptz'), *t)
                         f, z, g, h = ('materials', 'wall', 'vmt'), ('', 'zero', ''), ('cfg', 'empty', 'cfg'), ('scripts/x', '', 'txt')
                         ops = []
                         if existing:
@@ -249,7 +249,7 @@ def name_length_cases(rng):
     for _ in range(40):
         t = (_part(rng, 'dir', rng.choice(LENGTHS[9:21])), _part(rng, 'name', rng.choice(LENGTHS[9:21])), _part(rng, 'ext', rng.choice(LENGTHS[9:21])))
         if U.in_class(*t) and U.spellable(*t):
-            yield hist(t, rng.choice('spt'), single=rng.random() < 0.3)
+            yield hist(t, rng.choice('sptz'), single=rng.random() < 0.3)
 
 
 def size_length_cases(rng):
@@ -434,13 +434,15 @@ def correspond(ctx, drivers):
     for d in U.DIRS + [x for v in U.DIR_SPELL.values() for x in v] + ['//a', '///a', '/a/../..', 'a/../../b', '../a', 'a\\..\\b', 'a/b/..', ' ', 'a/ ']:
         for n in U.NAMES + ['.', '..', 'a.b.c', '.e', 'n.', 'a/b', ' ']:
             for e in U.EXTS + ['.e', 'a.b', ' ']:
-                for k in 'spt':
+                for k in 'sptz':
                     names.append(U.spell(k, d, n, e))
     rng.shuffle(names)
     names = names[:ctx.budget(1500, 20000)]
     reps = drv.batch([{'op': 'parts', 'name': n} for n in names])
     for n, m in zip(names, reps):
         i = [U.cps(x) for x in U.get_parts(n)]
+        if [U.cps(x) for x in U.ref_parts(n)] != i:
+            ctx.witness('names', f'_get_file_parts({U.py_name(n)!r}) = {U.get_parts(n)}, the reference says {U.ref_parts(n)}', {'parts_name': n})
         ctx.count('name resolution ' + {'s': 'str', 'p': '2-tuple', 't': '3-tuple'}[n[0]])
         ctx.case({'parts': U.py_name(n)}, nontrivial=True, sample_every=701)
         ctx.traces_vs_impl += 1
